@@ -1240,30 +1240,45 @@ type related interface {
 	ListRelatedServices() []structs.ServiceID
 }
 
-// is chain X one of the chains the write to (kind,name) must re-validate: the written name
-// itself or a chain owning a router/splitter/resolver that names it; every chain with such an
-// entry for proxy-defaults
-func directlyAffected(before []structs.ConfigEntry, x, kind, name string) bool {
-	if kind != structs.ProxyDefaults && x == name {
-		return true
-	}
-	for _, e := range before {
-		if e.GetName() != x {
-			continue
-		}
-		switch e.GetKind() {
-		case structs.ServiceRouter, structs.ServiceSplitter, structs.ServiceResolver:
-			if kind == structs.ProxyDefaults {
-				return true
+// can chain X reach the written name through router/splitter/resolver entries (any number of
+// hops): those are the chains a write to (kind,name) must re-validate; every chain owning such
+// an entry for proxy-defaults.  hops = 0 for the name itself, 1 for a chain that names it, ...
+func reachesName(before []structs.ConfigEntry, x, kind, name string) (bool, int) {
+	if kind == structs.ProxyDefaults {
+		for _, e := range before {
+			if e.GetName() == x {
+				switch e.GetKind() {
+				case structs.ServiceRouter, structs.ServiceSplitter, structs.ServiceResolver:
+					return true, 1
+				}
 			}
-			for _, sid := range e.(related).ListRelatedServices() {
-				if sid.ID == name {
-					return true
+		}
+		return false, 0
+	}
+	dist := map[string]int{x: 0}
+	queue := []string{x}
+	for len(queue) > 0 {
+		cur := queue[0]
+		queue = queue[1:]
+		if cur == name {
+			return true, dist[cur]
+		}
+		for _, e := range before {
+			if e.GetName() != cur {
+				continue
+			}
+			switch e.GetKind() {
+			case structs.ServiceRouter, structs.ServiceSplitter, structs.ServiceResolver:
+				for _, sid := range e.(related).ListRelatedServices() {
+					if _, ok := dist[sid.ID]; !ok {
+						dist[sid.ID] = dist[cur] + 1
+						queue = append(queue, sid.ID)
+					}
 				}
 			}
 		}
 	}
-	return false
+	return false, 0
 }
 
 // the proposed full entry set compiled directly (no store), for "rejected without cause"
@@ -1331,10 +1346,10 @@ func runStoreCase(c *Case, universe []string) {
 				c.Sig = map[string]interface{}{"kind": "rejected-write-changed-store"}
 				continue
 			}
-			// a cause must exist among the chains the write has to re-validate
+			// a cause must exist among the chains that can reach the written name (any number of hops)
 			cause := false
 			for _, x := range universe {
-				if directlyAffected(before, x, kind, op.Entry.Name) {
+				if r, _ := reachesName(before, x, kind, op.Entry.Name); r {
 					var ne structs.ConfigEntry
 					if !op.Del {
 						ne = ce
@@ -1350,7 +1365,7 @@ func runStoreCase(c *Case, universe []string) {
 			}
 			continue
 		}
-		// accepted: no chain that compiled before may be broken now
+		// accepted: no chain that compiled before may be broken now (whatever its distance from the written name)
 		for _, x := range universe {
 			ok, msg, h := chainCompiles(s, x)
 			if h {
@@ -1359,10 +1374,10 @@ func runStoreCase(c *Case, universe []string) {
 				return
 			}
 			if !ok && !broken[x] {
-				direct := directlyAffected(before, x, kind, op.Entry.Name)
-				if c.Oracle == "" || direct {
+				reaches, hops := reachesName(before, x, kind, op.Entry.Name)
+				if c.Oracle == "" {
 					c.Oracle = fmt.Sprintf("write-guard:accepted-write-breaks-chain-%s@%d:%s", x, i, msg)
-					c.Sig = map[string]interface{}{"kind": "accepted-write-breaks-chain", "direct": direct}
+					c.Sig = map[string]interface{}{"kind": "accepted-write-breaks-chain", "reaches_written_name": reaches, "hops": hops}
 				}
 			}
 			broken[x] = !ok
